@@ -457,31 +457,17 @@ bool DOMDocumentTypeImpl::isEqualNode(const DOMNode* arg) const
     }
 
     DOMDocumentType* argDT = (DOMDocumentType*) arg;
-    // check the string values
-    if (!getPublicId()) {
-        if (argDT->getPublicId()) {
-            return false;
-        }
-    }
-    else if (!XMLString::equals(getPublicId(), argDT->getPublicId())) {
+    // check the string values (XMLString::equals treats null and "" alike,
+    // in both directions)
+    if (!XMLString::equals(getPublicId(), argDT->getPublicId())) {
         return false;
     }
 
-    if (!getSystemId()) {
-        if (argDT->getSystemId()) {
-            return false;
-        }
-    }
-    else if (!XMLString::equals(getSystemId(), argDT->getSystemId())) {
+    if (!XMLString::equals(getSystemId(), argDT->getSystemId())) {
         return false;
     }
 
-    if (!getInternalSubset()) {
-        if (argDT->getInternalSubset()) {
-            return false;
-        }
-    }
-    else if (!XMLString::equals(getInternalSubset(), argDT->getInternalSubset())) {
+    if (!XMLString::equals(getInternalSubset(), argDT->getInternalSubset())) {
         return false;
     }
 
